@@ -174,6 +174,8 @@ def sweep_part(shard, n_vectors, seed):
 
 def run(tier, t0):
     part = runner.hyp_shards("vf.props.c12", "hyp_part", 8000 if tier == "quick" else 240000)
+    from ..fuzz import driver
+    fuzz_note = driver.campaign(part, "rh", runs=160000 if tier == "quick" else 4000000)
     for p in runner.parallel("vf.props.c12", "sweep_part", [(s, 12 if tier == "quick" else 300, runner.SEED) for s in range(runner.NPROC)]):
         part.merge(p)
     rule = ("(i) objects from accepted vectors: rh_vector() format and round trip; (ii) <score>/<vector> with all 101 scores "
@@ -182,7 +184,7 @@ def run(tier, t0):
             "faulty. non-trivial = case that must be rejected; distinct by hash (sweep cases by construction)")
     return runner.finish(part, tier, t0, rule,
                          ["'parses as a number' = Python float() succeeds; equality is exact float equality with the oracle base score",
-                          "when both the score part and the vector part are faulty either error class is accepted"],
+                          "when both the score part and the vector part are faulty either error class is accepted", "coverage-guided: " + fuzz_note],
                          required=("object", "score-sweep", "near-score", "padded-score", "special-score", "no-slash", "bad-score", "bad-vector", "both-bad",
                                    "other-score-slot", "sweep-101", "outcome:ok", "outcome:rh-mismatch", "outcome:rh-malformed",
                                    "outcome:malformed", "outcome:mandatory"))
